@@ -65,6 +65,7 @@ type lexer struct {
 	env   *ExecEnv
 	r     io.RuneScanner
 	n     int
+	fault bool // evaluation has failed; accessed by the parser only
 	token chan interface{}
 
 	mu     sync.Mutex
